@@ -40,7 +40,7 @@ type C13Scenario struct {
 }
 
 func genC13(rt *rapid.T) core.Scenario {
-	sc := &C13Scenario{Store: StoreCfg{Kind: rapid.SampledFrom([]string{"mem", "mem", "mem", "sqlite"}).Draw(rt, "store")}}
+	sc := &C13Scenario{Store: StoreCfg{Kind: rapid.SampledFrom([]string{"mem", "mem", "mem", "sqlite", "ds"}).Draw(rt, "store")}}
 	np := rapid.IntRange(1, 2).Draw(rt, "nPublishers")
 	id := 0
 	total := 0
@@ -378,6 +378,11 @@ func (sc *C13Scenario) Execute(t *testing.T) *core.Outcome {
 				out.V("error-handler-count", "persistence error handler called %d times for event %d (append outcomes %v, unencodable=%v), expected %d", seen[id], id, outcomes[id], pubOf[id].Bad > 0, want)
 			}
 		}
+	}
+	// the stores used here are fault-free apart from the plan: an append the plan did not touch must succeed
+	// ("publishes after a failure are persisted normally")
+	for _, e := range fc.InnerAppendErrs {
+		out.V("append-failed-without-fault", "[%s] the store rejected an append that no injected fault touched: %s", sc.Store, e)
 	}
 	// a timed-out Append saw its context expire, and the publish was not held beyond the timeout
 	for _, sawErr := range fc.AppendCtxErrAtReturn {
